@@ -719,6 +719,12 @@ class Verifier(Exec):
                         target = n
             elif len(lst) == 1:
                 target = lst[0][1]
+            elif getattr(self, 'env_line', None):
+                # several locals of that name, none of them visible where the loop starts: at an anchored statement the
+                # name means the one declared before it - if that is a single one
+                before_ = [(pos, n) for pos, n in lst if int(pos.split(':')[0]) <= self.env_line]
+                if len(before_) == 1:
+                    target = before_[0][1]
             if target is None:
                 continue
             env[name] = ('lazy', (lambda n_: (lambda st_: self.load_local(st_, n_)))(target))
@@ -1406,6 +1412,9 @@ class Verifier(Exec):
 
     def effect_call(self, st, ins, fv, args):
         sets = self.effect_check(st, 'call', fv, 'function value', args)
+        # a ghost variable named calls_<field> counts the calls made through that function value
+        if isinstance(fv, Opaque) and isinstance(fv.info, tuple) and fv.info[0] == 'field' and ('gv:calls_' + str(fv.info[1])) in st.ghost:
+            st.ghost['gv:calls_' + fv.info[1]] = self.ctx.name('gv:calls_' + fv.info[1], add(st.ghost['gv:calls_' + fv.info[1]], ONE))
         if sets is not None and self.track_own and isinstance(args[sets], SliceV):
             # the consumer keeps the slice: its cells become owned
             a_ = args[sets]
@@ -2105,7 +2114,11 @@ class Verifier(Exec):
         for cl in (getattr(spec, 'anchored', None) or []):
             if cl.anchor in text:
                 scope = self.scope_at_line(line)
-                env = dict(self.spec_env(scope))
+                self.env_line = line
+                try:
+                    env = dict(self.spec_env(scope))
+                finally:
+                    self.env_line = None
                 # inside a range loop body, `cur` is the index of the element being processed
                 for h_, lp_ in self.cfg.loops.items():
                     if lp_.ast and lp_.ast['line'] <= line <= lp_.ast['endline'] and lp_.ast.get('scope') is scope:
@@ -2132,7 +2145,11 @@ class Verifier(Exec):
                 st.ghost['gv:' + gname_] = self.ctx.name('gv:' + gname_, SpecEval(self, st, env, self.old, 'ghost ' + gname_).term(parse_expr(gexpr_)))
         for anchor_, cl_, full_ in getattr(self.spec, 'libfacts', None) or []:
             if anchor_ in text:
-                env = dict(self.spec_env(self.scope_at_line(line)))
+                self.env_line = line
+                try:
+                    env = dict(self.spec_env(self.scope_at_line(line)))
+                finally:
+                    self.env_line = None
                 self.ctx.assume(implies(st.pc, SpecEval(self, st, env, self.old, 'libfact').boolean(cl_.expr)))
                 self.trusted.add('assumed fact about a library result in %s after `%s`: %s' % (short_fn(self.fname), anchor_, full_))
                 self.libfacts_hit = getattr(self, 'libfacts_hit', set()) | {anchor_}
@@ -2701,6 +2718,14 @@ class Verifier(Exec):
         for ins in blk['instrs']:
             op = ins['op']
             if self.is_cut(ins.get('line')):
+                # (assertions and ghost updates anchored at the same statement still apply: they come before it)
+                ln_ = ins.get('line')
+                if ln_ and ln_ != self.last_anchor_line.get(blk['index']):
+                    self.last_anchor_line[blk['index']] = ln_
+                    if getattr(self, 'ghost_after', None) or getattr(self.spec, 'libfacts', None):
+                        if st.ghost.get('py:line') not in (None, ln_):
+                            self.ghost_after_line(st, st.ghost['py:line'])
+                    self.anchors_at(st, ln_)
                 self.ctx.notes.append('unbounded verification of %s stops at line %d (%s); the rest of the function is NOT verified' % (short_fn(self.fname), ins['line'], self.cut_reason))
                 self.cut_pcs.append(st.pc)
                 return
@@ -2904,6 +2929,13 @@ class Verifier(Exec):
             env = dict(env)
             env['iter'] = ('lazy', (lambda c_: (lambda st_: add(st_.cells[c_], ONE)))(cell))
             env['rangelen'] = ('lazy', (lambda b_: (lambda st_: self.val(st_, b_)))(bound))
+            # `ranged`: the slice the loop ranges over (it may be a temporary without a name, e.g. strings.Split(..))
+            if isinstance(bound, dict) and bound.get('k') == 'reg':
+                for b2_ in self.fn['blocks']:
+                    for i2_ in b2_['instrs']:
+                        if i2_.get('name') == bound['n'] and i2_.get('op') == 'Call' and (i2_['call'].get('value') or {}).get('k') == 'builtin' \
+                                and i2_['call']['value'].get('n') == 'len' and i2_['call'].get('args'):
+                            env['ranged'] = ('lazy', (lambda a_: (lambda st_: self.val(st_, a_)))(i2_['call']['args'][0]))
             auto = Clause('invariant', '0 <= iter && iter <= rangelen', None, 'auto:range')
             invs = [auto] + invs
         # inside a nested loop, `outer` is the index of the element the nearest enclosing range loop is processing
